@@ -13,6 +13,7 @@ import (
 	"github.com/failsafe-go/failsafe-go"
 	"github.com/failsafe-go/failsafe-go/hedgepolicy"
 	"github.com/failsafe-go/failsafe-go/retrypolicy"
+	"github.com/failsafe-go/failsafe-go/timeout"
 
 	"verifharness/vk"
 )
@@ -30,11 +31,15 @@ type c15Case struct {
 }
 
 func genC15(r *rand.Rand) c15Case {
-	cs := c15Case{Entry: r.IntN(4), Comp: vk.Pick(r, "retry", "retry", "hedge", "none"), FailN: r.IntN(3), Cancel: vk.Pick(r, "none", "none", "parked", "delay", "racing", "racing", "after-done"), Micro: int64(r.IntN(300)) * 1000}
+	cs := c15Case{Entry: r.IntN(4), Comp: vk.Pick(r, "retry", "retry", "hedge", "none", "retry>timeout"), FailN: r.IntN(3), Cancel: vk.Pick(r, "none", "none", "parked", "delay", "racing", "racing", "after-done"), Micro: int64(r.IntN(300)) * 1000}
 	if cs.Comp == "none" && (cs.Cancel == "parked" || cs.Cancel == "delay") {
 		cs.Comp = "retry" // the ErrExecutionCanceled clause is stated for executions under a retry or hedge policy
 	}
-	if cs.Comp != "retry" {
+	if cs.Comp == "retry>timeout" {
+		// attempt 1 is timed out by an inner Timeout, then Cancel lands in the 3s retry delay: ErrExecutionCanceled, not the
+		// stale timeout result
+		cs.Cancel, cs.FailN = "delay", 1
+	} else if cs.Comp != "retry" {
 		if cs.Cancel == "delay" {
 			cs.Cancel = "parked"
 		}
@@ -46,6 +51,9 @@ func genC15(r *rand.Rand) c15Case {
 	if cs.Cancel == "parked" {
 		cs.ParkAt = 1 + r.IntN(cs.FailN+1)
 		cs.Entry |= 1 // needs the Execution to notice cancellation
+	}
+	if cs.Comp == "retry>timeout" {
+		cs.Entry |= 1
 	}
 	k := 1 + r.IntN(16)
 	for i := 0; i < k; i++ {
@@ -79,6 +87,8 @@ func checkC15(rep *vk.Report) {
 		}
 		c15Differential(rep, idx)
 	})
+	failsafe.VerifSetYield(nil)
+	cancelStress(rep, "C15", 50000000, scale(rep, 30000, 1500000))
 	reportYields(rep)
 	rep.Require("readers_total", 1000)
 	rep.Require("cancel_while_parked", 50)
@@ -107,6 +117,10 @@ func c15Scenario(rep *vk.Report, idx int) {
 				return 0, errE2
 			}
 		}
+		if cs.Comp == "retry>timeout" && k == 1 && exec != nil {
+			<-exec.Canceled() // until the inner Timeout fires
+			return 0, errE2
+		}
 		if k <= cs.FailN {
 			return 0, errE1
 		}
@@ -114,7 +128,7 @@ func c15Scenario(rep *vk.Report, idx int) {
 	}
 	var pols []failsafe.Policy[int]
 	switch cs.Comp {
-	case "retry":
+	case "retry", "retry>timeout":
 		rb := retrypolicy.Builder[int]().WithMaxRetries(3).OnRetryScheduled(func(failsafe.ExecutionScheduledEvent[int]) {
 			schedOnce.Do(func() { close(sched) })
 		})
@@ -122,6 +136,9 @@ func c15Scenario(rep *vk.Report, idx int) {
 			rb.WithDelay(3 * time.Second)
 		}
 		pols = append(pols, rb.Build())
+		if cs.Comp == "retry>timeout" {
+			pols = append(pols, timeout.With[int](2*time.Millisecond))
+		}
 	case "hedge":
 		pols = append(pols, hedgepolicy.BuilderWithDelay[int](3*time.Second).Build())
 	}
